@@ -12,9 +12,11 @@ import (
 // TestWorker is the entry point used by the driver (cmd/verif).
 func TestWorker(t *testing.T) {
 	logrus.SetOutput(io.Discard)
+	kernel.NoSelfCheck["C37r"] = true
 	kernel.WorkerMain(t, map[string]kernel.CheckFn{
 		"C38a": checkC38a(t),
 		"C37a": checkC37a,
+		"C37r": checkC37r,
 		"C48":  checkC48(t),
 		"C45":  checkC45(t),
 	})
